@@ -263,18 +263,17 @@ func nontrivial(c *Case) bool {
 
 func randStyle(rng *rand.Rand) Style {
 	return Style{Group: rng.Intn(4) != 0, Compact: rng.Intn(4) == 0, LastSemi: rng.Intn(2) == 0, UpperProp: rng.Intn(8) == 0,
-		Comments: rng.Intn(8) == 0, ImpSpace: rng.Intn(8) == 0}
+		Comments: rng.Intn(8) == 0, ImpSpace: rng.Intn(8) == 0, Escapes: rng.Intn(10) == 0, Noise: rng.Intn(10) == 0}
 }
 
 func pickConfigs(rng *rand.Rand, thorough bool) []config {
 	if thorough {
-		var out []config
-		for _, m := range []string{"off", "all", "syntax"} {
-			for _, t := range targets {
-				out = append(out, config{m, t.name, "css"})
-			}
+		out := []config{{"all", "none", "css"}, {"off", "none", "css"}}
+		perm := rng.Perm(len(targets) - 1)
+		for _, k := range perm[:3] {
+			out = append(out, config{"all", targets[1+k].name, "css"}, config{"off", targets[1+k].name, "css"})
 		}
-		out = append(out, config{"all", targets[1+rng.Intn(len(targets)-1)].name, "global-css"})
+		out = append(out, config{"syntax", targets[1+perm[3]].name, "css"}, config{"all", targets[1+perm[3]].name, "global-css"})
 		return out
 	}
 	old := targets[1+rng.Intn(3)].name
@@ -300,6 +299,17 @@ func checkCases(r *core.Run, voc *Vocab, cases []*Case, stats *stats) {
 		rng := rand.New(rand.NewSource(r.Seed*1000003 + int64(i)))
 		w := &work{c: c, style: randStyle(rng)}
 		cfgs := pickConfigs(rng, r.Thorough())
+		if c.Family == "mc-nest" && !r.Thorough() {
+			// every chain meets a target without nesting, with and without :is()
+			cfgs = []config{{"off", []string{"chrome50", "firefox60"}[rng.Intn(2)], "css"}, {"all", "chrome90", "css"}}
+		}
+		if c.Family == "regress" {
+			w.style = Style{Group: true}
+			cfgs = nil
+			for _, t := range []string{"chrome50", "firefox60", "chrome90"} {
+				cfgs = append(cfgs, config{"off", t, "css"}, config{"all", t, "css"})
+			}
+		}
 		if c.Family == "witness" {
 			w.style = Style{Group: true, LastSemi: true}
 			cfgs = []config{{"off", "chrome50", "css"}, {"all", "firefox60", "css"}}
@@ -569,7 +579,7 @@ func Run(r *core.Run) {
 	}
 	gi := &gen{voc: voc, rng: rand.New(rand.NewSource(r.Seed + 99))}
 	var graphs []graph
-	for k := 0; k < r.Pick(120, 2500); k++ {
+	for k := 0; k < r.Pick(120, 1200); k++ {
 		graphs = append(graphs, gi.graph(fmt.Sprintf("imp-%d", k)))
 	}
 	var impCases map[string]*Case
@@ -581,7 +591,7 @@ func Run(r *core.Run) {
 		}()
 	}
 	g := &gen{voc: voc, rng: rand.New(rand.NewSource(r.Seed))}
-	nSheets := r.Pick(320, 12000)
+	nSheets := r.Pick(320, 5000)
 	if v := os.Getenv("C12_N"); v != "" { // development only
 		fmt.Sscan(v, &nSheets)
 	}
@@ -632,7 +642,7 @@ func Run(r *core.Run) {
 	// CSS modules: a slice of the same cases through loader local-css behind a JavaScript entry
 	var local []*Case
 	for i, c := range cases {
-		if i%r.Pick(6, 4) == 0 && c.Family != "witness" {
+		if i%r.Pick(6, 4) == 0 && c.Family != "witness" && c.Family != "regress" {
 			local = append(local, c)
 		}
 	}
